@@ -139,13 +139,13 @@ CHECKS.update({
 
 CHECKS.update({
  "C23": ("fault_enumeration", "fault injection: exhaustive closure-level rename faults/crashes (hook H7) + strace syscall error/SIGKILL injection into the real generator process, with a directory-tree oracle",
-         "Every combination of {ok, error, crash-before, crash-after} on the three renames of the publish/rollback sequence from every initial state {absent, file, previous directory} is executed through the injectable publish routine (the whole space: 192 plans); the real generate_all_circuit_binaries runs in a child process under strace where the k-th filesystem-mutating syscall returns EIO/ENOSPC or the process is SIGKILLed at syscall entry (quick: publish-phase syscalls; thorough: every syscall, three initial states); after every run each file is compared byte-wise with the previous and the new set.",
+         "Every combination of {ok, error, error-because-another-process-re-created-the-output-path, crash-before, crash-after} on the three renames of the publish/rollback sequence from every initial state {absent, file, previous directory} is executed through the injectable publish routine (the whole space: 375 plans); the real generate_all_circuit_binaries runs in a child process under strace: every file-system call of the publishing thread in a fault-free reference trace (mkdir, openat, write to an artifact, unlink, rename; identified by syscall name and per-name ordinal, which is how strace counts) returns EIO (thorough: also ENOSPC, EACCES) or the process is SIGKILLed at its entry, each injected run is traced and counts only if its own trace shows the injected call; after every run each file is compared byte-wise with the previous and the new set, and a partial staging directory left by a single-fault failure is a violation.",
          "Trusted base: the harness's tree oracle; a panic in the injected closure stands for process death (no drop guards on that path); strace needs ptrace - when unavailable the syscall sub-check is skipped and recorded, the closure space still decides.", "§5 C23"),
 })
 
 CHECKS.update({
  "C11": ("exploration", "runtime oracle over 'programs': foreign child circuits with valid proofs written into the real outer circuits, judged by the constraint oracle and the real prover/verifier, plus a free-input (verifier-key) audit",
-         "Alternative child circuits are assembled from the repository's public circuit fragments (one copy constraint / constant gate added, nullifier or root binding removed: same CommonCircuitData, different key; ZK config; unconstrained 21-PI circuit) and proved; each proof is written into the proof targets of PrivateBatchCircuit over the canonical leaf and, one layer up, of PublicBatchCircuit over the canonical private batch; the outer constraint system must be unsatisfied; an audit searches the outer circuit for prover-controlled inputs and, if a verifier key's worth appears, writes the foreign key there; constructors must return Err (no panic) for children with other public-input counts.",
+         "Alternative child circuits are assembled from the repository's public circuit fragments (one copy constraint / constant gate added, nullifier or root binding removed: same CommonCircuitData, different key; ZK config; unconstrained 21-PI circuit) and proved; each proof is written into the proof targets of PrivateBatchCircuit over the canonical leaf (one, two and three child slots: the foreign proof at every slot position in turn, genuine canonical real / dummy-sentinel proofs elsewhere) and, one layer up, of PublicBatchCircuit over the canonical private batch (one and two inner slots); the outer constraint system must be unsatisfied while the all-canonical controls are satisfied; an audit searches the outer circuit for prover-controlled inputs and, if a verifier key's worth appears, writes the foreign key there; constructors must return Err (no panic) for children with other public-input counts.",
          CSO_NOTE, "§5 C11"),
  "C34": ("other", "differential runtime monitor: circuit outputs vs the Lean specification's own executable definitions evaluated by lean",
          "Accepted private-batch vectors (N in 1..8) judged by the wrapper circuit are handed to a Lean driver importing /repo/formal's WormholeSpec; groupExits (maskedChildPairs leaves), leaves.find? isRealB and digestLt on the circuit's nullifier region are evaluated from the spec's own definitions and compared with the circuit's output felts. `lake build` of the package runs first (it is what makes the definitions executable); a failing build or a `sorry` is reported.",
